@@ -14,6 +14,8 @@ package keeper
 //@ func Keeper.SetStream(ctx, receiverAddr, senderAddr, stream) (err)
 //@   props C10 C11 C12 C13
 //@   requires 1 <= len(receiverAddr) && len(receiverAddr) <= 255 && 1 <= len(senderAddr) && len(senderAddr) <= 255
+//@   requires validTime(stream.LastOutflowTime) && validTime(stream.DepositZeroTime)
+//@   nopanic
 //@   modifies str_store
 //@   ensures err == nil && str_store == strPut(old(str_store), bytesval(receiverAddr), bytesval(senderAddr), stream)
 
@@ -91,6 +93,7 @@ package keeper
 //@   requires !isnil(strParams(str_store).ValidatorFee) && 0 <= dval(strParams(str_store).ValidatorFee) && dval(strParams(str_store).ValidatorFee) <= ONE
 //@   requires !isnil(topUpDeposit.Amount) && 0 < Amt(topUpDeposit) && Amt(topUpDeposit) < P255 && validDenom(topUpDeposit.Denom)
 //@   requires strHas(str_store, bytesval(receiverAddr), bytesval(senderAddr)) ==> Amt(strGet(str_store, bytesval(receiverAddr), bytesval(senderAddr)).Deposit) + Amt(topUpDeposit) < P255
+//@   requires strHas(str_store, bytesval(receiverAddr), bytesval(senderAddr)) ==> validTime(mkTime(max(UnixNs(blockTime(ctx)), UnixNs(strGet(str_store, bytesval(receiverAddr), bytesval(senderAddr)).DepositZeroTime)) + (MAXDUR + 1) * NS))
 //@   let r := bytesval(receiverAddr)
 //@   let sd := bytesval(senderAddr)
 //@   let x0 := strGet(old(str_store), bytesval(receiverAddr), bytesval(senderAddr))
@@ -118,3 +121,194 @@ package keeper
 //@   ensures @bank err == nil ==> forall a `BytesV`, d string :: {balOf(bank_bal, a, d)} balOf(bank_bal, a, d) == balOf(old(bank_bal), a, d) - ((a == esc && d == dn) ? rel : 0) + ((a == r && d == dn) ? rel - feeAmt : 0) + ((a == fc && d == dn) ? feeAmt : 0) - ((a == sd && d == dn) ? Amt(topUpDeposit) : 0) + ((a == esc && d == dn) ? Amt(topUpDeposit) : 0)
 //@   ensures @bank_ok BANK_OK(bank_bal)
 //@   ensures @never_stranded strHas(old(str_store), r, sd) && topUpDeposit.Denom == dn && ext <= MAXDUR && bankSpendable(old(bank_bal), sd, dn) >= Amt(topUpDeposit) && balOf(old(bank_bal), esc, dn) >= Amt(x0.Deposit) && !bankBlocked(r) && sd != esc && sd != r && sd != fc && validTime(mkTime((expired ? UnixNs(now) : UnixNs(x0.DepositZeroTime)) + ext * NS)) ==> err == nil
+
+// A flow-rate change: settle at the old rate, then recompute the zero time from the settled remainder at the new rate.
+//@ func Keeper.SetNewFlowRate(ctx, receiverAddr, senderAddr, newFlowRate) (err)
+//@   props C10 C11 C12
+//@   requires 1 <= len(receiverAddr) && len(receiverAddr) <= 255 && 1 <= len(senderAddr) && len(senderAddr) <= 255
+//@   requires STR_WF(str_store) && STR_RATE(str_store) && STR_TIME(str_store, UnixNs(blockTime(ctx))) && strParamsSet(str_store) && BANK_OK(bank_bal)
+//@   requires !isnil(strParams(str_store).ValidatorFee) && 0 <= dval(strParams(str_store).ValidatorFee) && dval(strParams(str_store).ValidatorFee) <= ONE
+//@   requires newFlowRate >= 1
+//@   requires validTime(mkTime(UnixNs(blockTime(ctx)) + (MAXDUR + 1) * NS))
+//@   let r := bytesval(receiverAddr)
+//@   let sd := bytesval(senderAddr)
+//@   let x0 := strGet(old(str_store), bytesval(receiverAddr), bytesval(senderAddr))
+//@   let x1 := strGet(str_store, bytesval(receiverAddr), bytesval(senderAddr))
+//@   let now := blockTime(ctx)
+//@   let dn := x0.Deposit.Denom
+//@   let esc := bytesval(modAddr("stream"))
+//@   let fc := bytesval(modAddr(k.feeCollectorName))
+//@   let vf := dval(strParams(old(str_store)).ValidatorFee)
+//@   let rel := (Amt(x0.Deposit) > 0) ? ((UnixNs(now) >= UnixNs(x0.DepositZeroTime)) ? Amt(x0.Deposit) : min(Amt(x0.Deposit), x0.FlowRate * ((UnixNs(now) - UnixNs(x0.LastOutflowTime)) / 1000000000))) : 0
+//@   let feeAmt := (rel * vf) / ONE
+//@   let remAmt := Amt(x0.Deposit) - rel
+//@   let dur := remAmt / newFlowRate
+//@   modifies str_store, bank_bal
+//@   nopanic
+//@   hint strHas(str_store, bytesval(receiverAddr), bytesval(senderAddr)) ==> 0 <= Amt(x0.Deposit) * vf && Amt(x0.Deposit) * vf <= Amt(x0.Deposit) * ONE
+//@   ensures @accepted err == nil ==> strHas(old(str_store), r, sd) && dur <= MAXDUR
+//@   ensures @rejected_keeps_rate err != nil ==> (strHas(str_store, r, sd) ==> x1.FlowRate == x0.FlowRate) || !strHas(old(str_store), r, sd)
+//@   ensures @stream_updated err == nil ==> str_store == strPut(old(str_store), r, sd, x1) && x1.FlowRate == newFlowRate && x1.Cancellable == x0.Cancellable
+//@   ensures @settled_first err == nil ==> Amt(x1.Deposit) == remAmt && x1.Deposit.Denom == dn && !isnil(x1.Deposit.Amount)
+//@   ensures @zero_time_recomputed err == nil ==> UnixNs(x1.DepositZeroTime) == UnixNs(now) + ((Amt(x0.Deposit) > 0) ? dur * NS : 0)
+//@   ensures @last_outflow err == nil ==> x1.LastOutflowTime == ((Amt(x0.Deposit) > 0) ? now : x0.LastOutflowTime)
+//@   ensures @rate_sustained err == nil ==> rateOK(x1)
+//@   ensures @bank err == nil ==> forall a `BytesV`, d string :: {balOf(bank_bal, a, d)} balOf(bank_bal, a, d) == balOf(old(bank_bal), a, d) - ((a == esc && d == dn) ? rel : 0) + ((a == r && d == dn) ? rel - feeAmt : 0) + ((a == fc && d == dn) ? feeAmt : 0)
+//@   ensures @bank_ok BANK_OK(bank_bal)
+
+// A cancel: settle, refund exactly the unreleased remainder to the sender, delete the stream.
+//@ func Keeper.CancelStreamBySenderReceiver(ctx, receiverAddr, senderAddr) (err)
+//@   props C10 C11 C12
+//@   requires 1 <= len(receiverAddr) && len(receiverAddr) <= 255 && 1 <= len(senderAddr) && len(senderAddr) <= 255
+//@   requires STR_WF(str_store) && STR_TIME(str_store, UnixNs(blockTime(ctx))) && strParamsSet(str_store) && BANK_OK(bank_bal)
+//@   requires !isnil(strParams(str_store).ValidatorFee) && 0 <= dval(strParams(str_store).ValidatorFee) && dval(strParams(str_store).ValidatorFee) <= ONE
+//@   let r := bytesval(receiverAddr)
+//@   let sd := bytesval(senderAddr)
+//@   let x0 := strGet(old(str_store), bytesval(receiverAddr), bytesval(senderAddr))
+//@   let now := blockTime(ctx)
+//@   let dn := x0.Deposit.Denom
+//@   let esc := bytesval(modAddr("stream"))
+//@   let fc := bytesval(modAddr(k.feeCollectorName))
+//@   let vf := dval(strParams(old(str_store)).ValidatorFee)
+//@   let rel := (Amt(x0.Deposit) > 0) ? ((UnixNs(now) >= UnixNs(x0.DepositZeroTime)) ? Amt(x0.Deposit) : min(Amt(x0.Deposit), x0.FlowRate * ((UnixNs(now) - UnixNs(x0.LastOutflowTime)) / 1000000000))) : 0
+//@   let feeAmt := (rel * vf) / ONE
+//@   let refund := Amt(x0.Deposit) - rel
+//@   modifies str_store, bank_bal
+//@   nopanic
+//@   hint strHas(str_store, bytesval(receiverAddr), bytesval(senderAddr)) ==> 0 <= Amt(x0.Deposit) * vf && Amt(x0.Deposit) * vf <= Amt(x0.Deposit) * ONE
+//@   ensures @accepted err == nil ==> strHas(old(str_store), r, sd) && x0.Cancellable
+//@   ensures @deleted err == nil ==> str_store == strDel(old(str_store), r, sd)
+//@   ensures @refund_exact err == nil ==> forall a `BytesV`, d string :: {balOf(bank_bal, a, d)} balOf(bank_bal, a, d) == balOf(old(bank_bal), a, d) - ((a == esc && d == dn) ? Amt(x0.Deposit) : 0) + ((a == r && d == dn) ? rel - feeAmt : 0) + ((a == fc && d == dn) ? feeAmt : 0) + ((a == sd && d == dn) ? refund : 0)
+//@   ensures @bank_ok BANK_OK(bank_bal)
+//@   ensures @never_stranded strHas(old(str_store), r, sd) && x0.Cancellable && balOf(old(bank_bal), esc, dn) >= Amt(x0.Deposit) && !bankBlocked(r) && !bankBlocked(sd) ==> err == nil
+
+//@ func Keeper.CreateNewStream(ctx, receiverAddr, senderAddr, deposit, flowRate) (stream, err)
+//@   props C10 C11 C12
+//@   requires 1 <= len(receiverAddr) && len(receiverAddr) <= 255 && 1 <= len(senderAddr) && len(senderAddr) <= 255
+//@   requires validDenom(deposit.Denom)
+//@   let r := bytesval(receiverAddr)
+//@   let sd := bytesval(senderAddr)
+//@   let x1 := strGet(str_store, bytesval(receiverAddr), bytesval(senderAddr))
+//@   modifies str_store
+//@   nopanic
+//@   ensures @only_new (err == nil) == !strHas(old(str_store), r, sd)
+//@   ensures @rejected err != nil ==> str_store == old(str_store)
+//@   ensures @created_empty err == nil ==> str_store == strPut(old(str_store), r, sd, x1) && x1 == stream && !isnil(x1.Deposit.Amount) && Amt(x1.Deposit) == 0 && x1.Deposit.Denom == deposit.Denom && x1.FlowRate == flowRate && x1.LastOutflowTime == blockTime(ctx) && UnixNs(x1.DepositZeroTime) == 0 && x1.Cancellable
+
+// ================================================================ L3: message server
+//
+// Module invariant STR_INV = STR_WF && STR_RATE && STR_TIME(now) && STR_ESCROW && STR_NOESC && BANK_OK; every entry point
+// requires it (with the current block time) and re-establishes it on success.  Wiring facts required here and
+// established by the app frame obligations: the fee collector is not the stream module, the escrow account is blocked.
+
+//@ func msgServer.ClaimStream(goCtx, msg) (resp, err)
+//@   props C10 C11 C12 C13
+//@   requires STR_WF(str_store) && STR_RATE(str_store) && STR_TIME(str_store, UnixNs(blockTime(goCtx))) && strParamsSet(str_store) && BANK_OK(bank_bal)
+//@   requires STR_ESCROW(str_store, bank_bal, bytesval(modAddr("stream"))) && STR_NOESC(str_store, bytesval(modAddr("stream")))
+//@   requires !isnil(strParams(str_store).ValidatorFee) && 0 <= dval(strParams(str_store).ValidatorFee) && dval(strParams(str_store).ValidatorFee) <= ONE
+//@   requires k.Keeper.feeCollectorName != "stream"
+//@   let r := addrB(msg.Receiver)
+//@   let sd := addrB(msg.Sender)
+//@   let x0 := strGet(old(str_store), addrB(msg.Receiver), addrB(msg.Sender))
+//@   let x1 := strGet(str_store, addrB(msg.Receiver), addrB(msg.Sender))
+//@   let now := blockTime(goCtx)
+//@   let esc := bytesval(modAddr("stream"))
+//@   let vf := dval(strParams(old(str_store)).ValidatorFee)
+//@   let rel := (UnixNs(now) >= UnixNs(x0.DepositZeroTime)) ? Amt(x0.Deposit) : min(Amt(x0.Deposit), x0.FlowRate * ((UnixNs(now) - UnixNs(x0.LastOutflowTime)) / 1000000000))
+//@   modifies str_store, bank_bal
+//@   ensures @rejected_keeps_streams err != nil ==> str_store == old(str_store)
+//@   ensures @existing_stream_of_these_parties err == nil ==> validBech32(msg.Receiver) && validBech32(msg.Sender) && strHas(old(str_store), r, sd)
+//@   ensures @pays_exactly_the_rate err == nil ==> Amt(resp.TotalClaimed) == rel && Amt(resp.RemainingDeposit) == Amt(x0.Deposit) - rel
+//@   ensures @fee_split err == nil ==> Amt(resp.ValidatorFee) == (rel * vf) / ONE && Amt(resp.StreamPayment) + Amt(resp.ValidatorFee) == rel
+//@   ensures @only_this_stream err == nil ==> str_store == strPut(old(str_store), r, sd, x1) && Amt(x1.Deposit) == Amt(x0.Deposit) - rel && x1.FlowRate == x0.FlowRate && x1.DepositZeroTime == x0.DepositZeroTime
+//@   ensures @inv err == nil ==> STR_WF(str_store) && STR_RATE(str_store) && STR_TIME(str_store, UnixNs(now)) && STR_ESCROW(str_store, bank_bal, esc) && STR_NOESC(str_store, esc) && BANK_OK(bank_bal)
+
+//@ func msgServer.CreateStream(goCtx, msg) (resp, err)
+//@   props C10 C11 C12 C13
+//@   requires STR_WF(str_store) && STR_RATE(str_store) && STR_TIME(str_store, UnixNs(blockTime(goCtx))) && strParamsSet(str_store) && BANK_OK(bank_bal)
+//@   requires STR_ESCROW(str_store, bank_bal, bytesval(modAddr("stream"))) && STR_NOESC(str_store, bytesval(modAddr("stream")))
+//@   requires !isnil(strParams(str_store).ValidatorFee) && 0 <= dval(strParams(str_store).ValidatorFee) && dval(strParams(str_store).ValidatorFee) <= ONE
+//@   requires k.Keeper.feeCollectorName != "stream" && bankBlocked(bytesval(modAddr("stream")))
+//@   requires validBech32(msg.Sender) ==> addrB(msg.Sender) != bytesval(modAddr("stream"))
+//@   requires UnixNs(blockTime(goCtx)) >= 0 && validTime(mkTime(UnixNs(blockTime(goCtx)) + (MAXDUR + 1) * NS))
+//@   requires !isnil(msg.Deposit.Amount) ==> Amt(msg.Deposit) < P255 && validDenom(msg.Deposit.Denom)
+//@   let r := addrB(msg.Receiver)
+//@   let sd := addrB(msg.Sender)
+//@   let x1 := strGet(str_store, addrB(msg.Receiver), addrB(msg.Sender))
+//@   let now := blockTime(goCtx)
+//@   let esc := bytesval(modAddr("stream"))
+//@   modifies str_store, bank_bal
+//@   ensures @new_pair_only err == nil ==> validBech32(msg.Receiver) && validBech32(msg.Sender) && !strHas(old(str_store), r, sd) && !bankBlocked(r)
+//@   ensures @accepted_values err == nil ==> msg.FlowRate >= 1 && Amt(msg.Deposit) >= 1 && Amt(msg.Deposit) / msg.FlowRate >= 60 && Amt(msg.Deposit) / msg.FlowRate <= MAXDUR
+//@   ensures @created err == nil ==> str_store == strPut(old(str_store), r, sd, x1) && x1.Deposit == msg.Deposit && x1.FlowRate == msg.FlowRate && x1.LastOutflowTime == now && UnixNs(x1.DepositZeroTime) == UnixNs(now) + (Amt(msg.Deposit) / msg.FlowRate) * NS && x1.Cancellable
+//@   ensures @funded_by_sender err == nil ==> forall a `BytesV`, d string :: {balOf(bank_bal, a, d)} balOf(bank_bal, a, d) == balOf(old(bank_bal), a, d) - ((a == sd && d == msg.Deposit.Denom) ? Amt(msg.Deposit) : 0) + ((a == esc && d == msg.Deposit.Denom) ? Amt(msg.Deposit) : 0)
+//@   ensures @inv err == nil ==> STR_WF(str_store) && STR_RATE(str_store) && STR_TIME(str_store, UnixNs(now)) && STR_ESCROW(str_store, bank_bal, esc) && STR_NOESC(str_store, esc) && BANK_OK(bank_bal)
+
+//@ func msgServer.TopUpDeposit(goCtx, msg) (resp, err)
+//@   props C10 C11 C12 C13
+//@   requires STR_WF(str_store) && STR_RATE(str_store) && STR_TIME(str_store, UnixNs(blockTime(goCtx))) && strParamsSet(str_store) && BANK_OK(bank_bal)
+//@   requires STR_ESCROW(str_store, bank_bal, bytesval(modAddr("stream"))) && STR_NOESC(str_store, bytesval(modAddr("stream")))
+//@   requires !isnil(strParams(str_store).ValidatorFee) && 0 <= dval(strParams(str_store).ValidatorFee) && dval(strParams(str_store).ValidatorFee) <= ONE
+//@   requires k.Keeper.feeCollectorName != "stream"
+//@   requires !isnil(msg.Deposit.Amount) ==> Amt(msg.Deposit) < P255 && validDenom(msg.Deposit.Denom)
+//@   requires validBech32(msg.Receiver) && validBech32(msg.Sender) && strHas(str_store, addrB(msg.Receiver), addrB(msg.Sender)) ==> Amt(strGet(str_store, addrB(msg.Receiver), addrB(msg.Sender)).Deposit) + Amt(msg.Deposit) < P255 && validTime(mkTime(max(UnixNs(blockTime(goCtx)), UnixNs(strGet(str_store, addrB(msg.Receiver), addrB(msg.Sender)).DepositZeroTime)) + (MAXDUR + 1) * NS))
+//@   let r := addrB(msg.Receiver)
+//@   let sd := addrB(msg.Sender)
+//@   let x0 := strGet(old(str_store), addrB(msg.Receiver), addrB(msg.Sender))
+//@   let x1 := strGet(str_store, addrB(msg.Receiver), addrB(msg.Sender))
+//@   let now := blockTime(goCtx)
+//@   let esc := bytesval(modAddr("stream"))
+//@   let expired := UnixNs(x0.DepositZeroTime) <= UnixNs(now)
+//@   let rel := (expired && Amt(x0.Deposit) > 0) ? Amt(x0.Deposit) : 0
+//@   let ext := Amt(msg.Deposit) / x0.FlowRate
+//@   modifies str_store, bank_bal
+//@   ensures @existing_stream_of_these_parties err == nil ==> validBech32(msg.Receiver) && validBech32(msg.Sender) && strHas(old(str_store), r, sd) && Amt(msg.Deposit) >= 1 && msg.Deposit.Denom == x0.Deposit.Denom
+//@   ensures @only_this_stream err == nil ==> str_store == strPut(old(str_store), r, sd, x1) && x1.FlowRate == x0.FlowRate
+//@   ensures @deposit_and_zero_time err == nil ==> Amt(x1.Deposit) == Amt(x0.Deposit) - rel + Amt(msg.Deposit) && UnixNs(x1.DepositZeroTime) == (expired ? UnixNs(now) : UnixNs(x0.DepositZeroTime)) + ext * NS
+//@   ensures @response err == nil ==> resp.CurrentDeposit == x1.Deposit && resp.DepositZeroTime == x1.DepositZeroTime
+//@   ensures @inv err == nil ==> STR_WF(str_store) && STR_RATE(str_store) && STR_TIME(str_store, UnixNs(now)) && STR_ESCROW(str_store, bank_bal, esc) && STR_NOESC(str_store, esc) && BANK_OK(bank_bal)
+
+//@ func msgServer.UpdateFlowRate(goCtx, msg) (resp, err)
+//@   props C10 C11 C12 C13
+//@   requires STR_WF(str_store) && STR_RATE(str_store) && STR_TIME(str_store, UnixNs(blockTime(goCtx))) && strParamsSet(str_store) && BANK_OK(bank_bal)
+//@   requires STR_ESCROW(str_store, bank_bal, bytesval(modAddr("stream"))) && STR_NOESC(str_store, bytesval(modAddr("stream")))
+//@   requires !isnil(strParams(str_store).ValidatorFee) && 0 <= dval(strParams(str_store).ValidatorFee) && dval(strParams(str_store).ValidatorFee) <= ONE
+//@   requires k.Keeper.feeCollectorName != "stream"
+//@   requires validTime(mkTime(UnixNs(blockTime(goCtx)) + (MAXDUR + 1) * NS))
+//@   let r := addrB(msg.Receiver)
+//@   let sd := addrB(msg.Sender)
+//@   let x0 := strGet(old(str_store), addrB(msg.Receiver), addrB(msg.Sender))
+//@   let x1 := strGet(str_store, addrB(msg.Receiver), addrB(msg.Sender))
+//@   let now := blockTime(goCtx)
+//@   let esc := bytesval(modAddr("stream"))
+//@   let rel := (Amt(x0.Deposit) > 0) ? ((UnixNs(now) >= UnixNs(x0.DepositZeroTime)) ? Amt(x0.Deposit) : min(Amt(x0.Deposit), x0.FlowRate * ((UnixNs(now) - UnixNs(x0.LastOutflowTime)) / 1000000000))) : 0
+//@   modifies str_store, bank_bal
+//@   ensures @existing_stream_of_these_parties err == nil ==> validBech32(msg.Receiver) && validBech32(msg.Sender) && strHas(old(str_store), r, sd) && msg.FlowRate >= 1
+//@   ensures @only_this_stream err == nil ==> str_store == strPut(old(str_store), r, sd, x1) && x1.FlowRate == msg.FlowRate
+//@   ensures @settled_then_recomputed err == nil ==> Amt(x1.Deposit) == Amt(x0.Deposit) - rel && UnixNs(x1.DepositZeroTime) == UnixNs(now) + ((Amt(x0.Deposit) > 0) ? ((Amt(x0.Deposit) - rel) / msg.FlowRate) * NS : 0)
+//@   ensures @inv err == nil ==> STR_WF(str_store) && STR_RATE(str_store) && STR_TIME(str_store, UnixNs(now)) && STR_ESCROW(str_store, bank_bal, esc) && STR_NOESC(str_store, esc) && BANK_OK(bank_bal)
+
+//@ func msgServer.CancelStream(goCtx, msg) (resp, err)
+//@   props C10 C11 C12 C13
+//@   requires STR_WF(str_store) && STR_RATE(str_store) && STR_TIME(str_store, UnixNs(blockTime(goCtx))) && strParamsSet(str_store) && BANK_OK(bank_bal)
+//@   requires STR_ESCROW(str_store, bank_bal, bytesval(modAddr("stream"))) && STR_NOESC(str_store, bytesval(modAddr("stream")))
+//@   requires !isnil(strParams(str_store).ValidatorFee) && 0 <= dval(strParams(str_store).ValidatorFee) && dval(strParams(str_store).ValidatorFee) <= ONE
+//@   requires k.Keeper.feeCollectorName != "stream"
+//@   let r := addrB(msg.Receiver)
+//@   let sd := addrB(msg.Sender)
+//@   let x0 := strGet(old(str_store), addrB(msg.Receiver), addrB(msg.Sender))
+//@   let now := blockTime(goCtx)
+//@   let esc := bytesval(modAddr("stream"))
+//@   let rel := (Amt(x0.Deposit) > 0) ? ((UnixNs(now) >= UnixNs(x0.DepositZeroTime)) ? Amt(x0.Deposit) : min(Amt(x0.Deposit), x0.FlowRate * ((UnixNs(now) - UnixNs(x0.LastOutflowTime)) / 1000000000))) : 0
+//@   modifies str_store, bank_bal
+//@   ensures @existing_stream_of_these_parties err == nil ==> validBech32(msg.Receiver) && validBech32(msg.Sender) && strHas(old(str_store), r, sd) && x0.Cancellable
+//@   ensures @deleted err == nil ==> str_store == strDel(old(str_store), r, sd)
+//@   ensures @sender_refunded_the_remainder err == nil && sd != r && sd != bytesval(modAddr(k.Keeper.feeCollectorName)) ==> balOf(bank_bal, sd, x0.Deposit.Denom) == balOf(old(bank_bal), sd, x0.Deposit.Denom) + (Amt(x0.Deposit) - rel)
+//@   ensures @inv err == nil ==> STR_WF(str_store) && STR_RATE(str_store) && STR_TIME(str_store, UnixNs(now)) && STR_ESCROW(str_store, bank_bal, esc) && STR_NOESC(str_store, esc) && BANK_OK(bank_bal)
+
+//@ func msgServer.UpdateParams(goCtx, req) (resp, err)
+//@   props C13 C16
+//@   modifies str_store
+//@   ensures @authority_only err == nil ==> req.Authority == k.Keeper.authority
+//@   ensures @rejected_changes_nothing err != nil ==> str_store == old(str_store)
+//@   ensures @valid_and_stored err == nil ==> str_store == strParamsPut(old(str_store), req.Params) && !isnil(req.Params.ValidatorFee) && 0 <= dval(req.Params.ValidatorFee) && dval(req.Params.ValidatorFee) <= ONE
